@@ -468,6 +468,62 @@ def part_decorate(ctx, shard):
                         ctx.violation(base + "|mode=wrapped-function-called-on-rejected-argument", case, calls_on_fail, len(log))
 
 
+            # stacked decorators: each layer keeps checking what it was asked to check
+            def stack(outer_kw, inner):
+                def deco(fn):
+                    return accepts(**outer_kw)(inner(fn))
+
+                return deco
+
+            tq, lq = unyt_quantity(2.0, "s"), unyt_quantity(2.0, "m")
+            stacked = []
+
+            @stack({"a": dim}, returns(udims.time))
+            def s1(a):
+                return lq  # a length is returned where a time is promised: the inner layer must still refuse
+
+            stacked.append(("accepts-over-returns-violated", lambda: s1(val), False))
+
+            @stack({"a": dim}, returns(udims.time))
+            def s2(a):
+                return tq
+
+            stacked.append(("accepts-over-returns-kept", lambda: s2(val), ok))
+
+            @stack({"a": dim}, accepts(b=udims.time))
+            def s3(a, b):
+                return sentinel
+
+            stacked.append(("accepts-over-accepts-inner-violated", lambda: s3(a=val, b=lq), False))
+            stacked.append(("accepts-over-accepts-inner-kept", lambda: s3(a=val, b=tq), ok))
+
+            @returns(udims.time)
+            @stack({"a": dim}, accepts(b=udims.time))
+            def s4(a, b):
+                return b
+
+            stacked.append(("returns-over-accepts-over-accepts", lambda: s4(a=val, b=tq), ok))
+            stacked.append(("returns-over-accepts-over-accepts-inner-violated", lambda: s4(a=val, b=lq), False))
+            for uname, call, want_ok in stacked:
+                ctx.count("evaluations")
+                try:
+                    call()
+                    st = "ok"
+                except TypeError:
+                    st = "TypeError"
+                except Exception as e:  # noqa: BLE001
+                    st = "other:" + type(e).__name__
+                case = {"part": "decorate", "dim": name, "arg": label, "usage": uname}
+                ctx.outcome(("decorate", uname, label, st))
+                ctx.decided(("decorate", name, label, uname))
+                if want_ok and st != "ok":
+                    ctx.violation(f"C19|decorate|usage={uname}|arg={label}|mode=rejected-matching-dimension:{st}", case, "call goes through", st)
+                elif not want_ok and st == "ok":
+                    ctx.violation(f"C19|decorate|usage={uname}|arg={label}|mode=accepted-wrong-dimension", case, "TypeError", "returned")
+                elif not want_ok and st != "TypeError":
+                    ctx.violation(f"C19|decorate|usage={uname}|arg={label}|mode=wrong-exception:{st}", case, "TypeError", st)
+
+
 def run(ctx):
     forms = ["quantity", "array", "qlist", "bare"]
     harness.pmap(ctx, part_close, [[(a, d)] for a in forms for d in forms])
